@@ -96,8 +96,12 @@ class CharacterClass(MutableSet[int]):
     :param xsd_version: the reference XSD version for syntax variants. Defaults to '1.0'.
     TODO: implement __ior__, __iand__, __ixor__ operators for a full mutable set class.
     """
-    _re_char_set = re.compile(r'(?<!.-)(\\[nrt|.\-^?*+{}()\]sSdDiIcCwW]|\\[pP]{[a-zA-Z\-0-9]+})')
+    _re_char_set = re.compile(
+        r'(?<!.-)(\\\\|\\[nrt|.\-^?*+{}()\]sSdDiIcCwW]|\\[pP]{[a-zA-Z\-0-9]+})'
+    )
     _re_unicode_ref = re.compile(r'\\([pP]){([\w-]+)}')
+    _re_char_escapes = re.compile(r'\\([\\nrt])')
+    _char_escapes = {'n': '\n', 'r': '\r', 't': '\t', '\\': '\\\\'}
 
     __slots__ = 'xsd_version', 'positive', 'negative'
 
@@ -182,9 +186,16 @@ class CharacterClass(MutableSet[int]):
             self.negative.clear()
             self.positive = UnicodeSubset([(0, maxunicode + 1)])
 
+    def _decode_char_escapes(self, charset: str) -> str:
+        # Replaces \\n, \\r and \\t with the characters they represent, so that
+        # they can be also the bounds of a range (e.g. [\\t-\\r]).
+        return self._re_char_escapes.sub(lambda m: self._char_escapes[m.group(1)], charset)
+
     def add(self, charset: Union[int, str]) -> None:
         if isinstance(charset, int):
             charset = chr(charset)
+        else:
+            charset = self._decode_char_escapes(charset)
 
         for part in self._re_char_set.split(charset):
             if part in CHARACTER_ESCAPES:
@@ -238,6 +249,8 @@ class CharacterClass(MutableSet[int]):
     def discard(self, charset: Union[int, str]) -> None:
         if isinstance(charset, int):
             charset = chr(charset)
+        else:
+            charset = self._decode_char_escapes(charset)
 
         for part in self._re_char_set.split(charset):
             if part in CHARACTER_ESCAPES:
